@@ -611,7 +611,8 @@ Section Skeleton.
     end.
   Definition levels_of (ns : path) : list path := map (fun i => firstn i ns) (seq 1 (length ns)).
 
-  (* directory name of a new table and the state with the nonce consumed *)
+  (* directory name of a new table; the nonce of a state is the number of operations run so far, so the
+     random hash of a directory created by the k-th operation is the code point NONCE0 + k *)
   Definition dir_name (dl : bool) (id : path) (key : K) (s : state) : str :=
     if (length id =? 1)%nat && dl then last id [] ++ DOT_LANCE
     else (NONCE0 + nonce s) :: USCORE :: p_text P key.
@@ -658,7 +659,7 @@ Section Skeleton.
         | Ok true => (AFail E_IO, s)
         | Ok false =>
             let dn := dir_name dl id key s in
-            let s1 := bump s in
+            let s1 := s in
             let uk := resolve_url dn in
             if d_has_dataset uk (dsk s1) then (AFail E_IO, s1)            (* Dataset::write: already exists *)
             else
@@ -771,7 +772,7 @@ Section Skeleton.
         | Ok (Some _) => (AFail E_NS, s)
         | Ok None =>
             let dn := dir_name dl id key s in
-            let s1 := bump s in
+            let s1 := s in
             let s2 := set_disk s1 (d_reserve (child_key dn) (dsk s1)) in      (* .lance-reserved *)
             match q_insert s2 key true (Some dn) with
             | Ok rs => (ALoc (render_key (resolve_url dn)) false, set_rows s2 rs)
@@ -799,7 +800,7 @@ Section Skeleton.
               | Ok true => (AFail E_NS, s)
               | Ok false =>
                   match q_insert s key true (Some loc) with
-                  | Ok rs => (ALoc (REG_TAG ++ loc) false, set_rows s rs)
+                  | Ok rs => (ALoc (REG_TAG ++ show_nonce loc) false, set_rows s rs)
                   | o => (qfail o, s)
                   end
               | o => (qfail o, s)
@@ -934,13 +935,13 @@ Section Skeleton.
     | [] => ([], s)
     | o :: r =>
         let '(a, s1) := step mode s o in
-        let '(as_, s2) := run mode s1 r in
+        let '(as_, s2) := run mode (bump s1) r in
         (a :: as_, s2)
     end.
 End Skeleton.
 
 Arguments rows {K}. Arguments dsk {K}. Arguments nonce {K}. Arguments dead {K}. Arguments mkS {K}.
-Arguments init {K}. Arguments step {K}. Arguments run {K}.
+Arguments init {K}. Arguments step {K}. Arguments run {K}. Arguments bump {K}.
 
 (* the implementation model, the abstract map, the typed map *)
 Definition impl_run (mode : N) (ops : list op) : list answer := fst (run string_prims mode init ops).
@@ -981,9 +982,36 @@ Definition confused (mode : N) (s : state path) (o : op) : bool :=
 Fixpoint confused_run (mode : N) (s : state path) (ops : list op) : bool :=
   match ops with
   | [] => false
-  | o :: r => confused mode s o || confused_run mode (snd (step typed_prims mode s o)) r
+  | o :: r => confused mode s o || confused_run mode (bump (snd (step typed_prims mode s o))) r
   end.
 Definition Known_C36_kind_confusion (mode : N) (ops : list op) : bool := confused_run mode init ops.
+
+(* dual mode: register_table of a root name whose directory `<name>.lance` exists, at another location:
+   the listing then shows the name twice (manifest entry + directory, de-duplicated by location only) *)
+Definition shadows (mode : N) (s : state path) (o : op) : bool :=
+  (mode =? 2) &&
+  match o with
+  | ORegisterTable [n] loc =>
+      d_exists_under (child_key (n ++ DOT_LANCE)) (dsk s) && negb (str_eqb loc (n ++ DOT_LANCE))
+  | _ => false
+  end.
+Fixpoint shadows_run (mode : N) (s : state path) (ops : list op) : bool :=
+  match ops with
+  | [] => false
+  | o :: r => shadows mode s o || shadows_run mode (bump (snd (step typed_prims mode s o))) r
+  end.
+Definition Known_C36_dual_listing_duplicate_name (mode : N) (ops : list op) : bool := shadows_run mode init ops.
+
+(* listings served by the manifest ignore page_token and limit *)
+Definition paging_ignored (mode : N) (o : op) : bool :=
+  match o with
+  | OListNs _ tok lim => negb (mode =? 0) && (match tok with Some _ => true | None => false end || match lim with Some _ => true | None => false end)
+  | OListTables id tok lim =>
+      negb (mode =? 0) && (match id with [] => mode =? 1 | _ => true end)
+      && (match tok with Some _ => true | None => false end || match lim with Some _ => true | None => false end)
+  | _ => false
+  end.
+Definition Known_C36_manifest_listing_ignores_paging (mode : N) (ops : list op) : bool := existsb (paging_ignored mode) ops.
 
 (* ------------------------------------------------------------------ correspondence checkers *)
 
